@@ -152,7 +152,7 @@ inline void topologyChecks(vh::Ctx& c, const BuiltMesh& b) {
     double worst = -Infinity, far = 0;
     for (auto& p : m.v) { worst = std::max(worst, (p - ctr).norm() - rad); far = std::max(far, (p - m.center).norm()); }
     c.check("contains:mesh-bounding-sphere", worst, 1e-12 * (m.scale + ctr.norm()), W("a vertex is outside getBoundingSphere"));
-    c.require("tight:mesh-bounding-sphere", rad <= far * (1 + 1e-6) + 1e-9 * (1 + ctr.norm()), W("bounding sphere larger than the centroid sphere"));
+    c.require("tight:mesh-bounding-sphere", rad <= far * (1 + 1e-6) + 1e-9 * (1 + ctr.norm()), [&]() { return W("bounding sphere larger than the sphere about the vertex centroid")().set("radius", rad).set("centroid_sphere_radius", far).set("center", jv(ctr)).set("centroid", jv(m.center)); });
     // createPolygonalMesh round trip
     PolygonalMesh pm = tm.createPolygonalMesh();
     bool same = pm.getNumVertices() == nv && pm.getNumFaces() == nf;
